@@ -557,8 +557,13 @@ func check(id, tier string) int {
 	sort.Strings(sigs)
 	var reported []string
 	unconfirmed := 0
+	maxSigs := envInt("VERIF_MAX_SIGS", 0) // evaluations of seeded changes: minimise and confirm only the first signatures
 	for _, sig := range sigs {
 		r := a.violations[sig]
+		if maxSigs > 0 && len(reported) >= maxSigs {
+			fmt.Printf("  signature=%s seed=%d (also seen; not minimised: VERIF_MAX_SIGS=%d)\n", sig, r.Seed, maxSigs)
+			continue
+		}
 		path, ok := minimiseAndConfirm(bin, id, tier, r, a.violIdx[sig])
 		if !ok {
 			// never print an alarm that does not replay; it only becomes a
